@@ -85,18 +85,19 @@ func finalBody(kind, x int) []byte {
 // ---- callback classes of the history search ---------------------------------------------
 
 const (
-	cFinal      = iota // the final reply of the task the id belongs (belonged) to
-	cCross             // a final reply of ANOTHER kind of task, carrying this id
-	cOutput            // COMMAND_OUTPUT (non-final)
-	cError             // COMMAND_ERROR / win32 (non-final: the failing command still replies or not; teamserver cannot tell)
-	cSocket            // COMMAND_SOCKET / SOCKET_COMMAND_WRITE failure notice (relay kind)
-	cPivot             // COMMAND_PIVOT / list (relay kind)
-	cBeaconText        // BEACON_OUTPUT / CALLBACK_OUTPUT
-	cBeaconFile        // BEACON_OUTPUT / CALLBACK_FILE  (opens a file in the loot tree)
+	cFinal       = iota // the final reply of the task the id belongs (belonged) to
+	cCross              // a final reply of ANOTHER kind of task, carrying this id
+	cOutput             // COMMAND_OUTPUT (non-final)
+	cError              // COMMAND_ERROR / win32 (non-final: the failing command still replies or not; teamserver cannot tell)
+	cSocket             // COMMAND_SOCKET / SOCKET_COMMAND_WRITE failure notice (relay kind)
+	cPivot              // COMMAND_PIVOT / list (relay kind)
+	cBeaconText         // BEACON_OUTPUT / CALLBACK_OUTPUT
+	cBeaconFile         // BEACON_OUTPUT / CALLBACK_FILE  (opens a file in the loot tree)
+	cFinalFailed        // the final reply of the task in its "did not work" form (a mem-file chunk the agent could not store): as final as the other
 	nClasses
 )
 
-var className = [...]string{"final", "cross-final", "output", "error-win32", "socket", "pivot-list", "beacon-text", "beacon-file"}
+var className = [...]string{"final", "cross-final", "output", "error-win32", "socket", "pivot-list", "beacon-text", "beacon-file", "final-reporting-failure"}
 
 func outputBody() []byte { return wr().Str("hello from the agent").B }
 func errorBody() []byte  { return wr().I32(agent.ERROR_WIN32_LASTERROR).I32(5).B }
@@ -139,6 +140,8 @@ func packet(c, kind, x int, id uint32) demonwire.Sub {
 		return demonwire.Sub{Cmd: agent.BEACON_OUTPUT, ReqID: id, Body: beaconTextBody()}
 	case cBeaconFile:
 		return demonwire.Sub{Cmd: agent.BEACON_OUTPUT, ReqID: id, Body: beaconFileBody()}
+	case cFinalFailed: // CommandMemFile: file id, success = FALSE
+		return demonwire.Sub{Cmd: agent.COMMAND_MEM_FILE, ReqID: id, Body: wr().I32(0x4d46).I32(0).B}
 	}
 	panic("class")
 }
